@@ -5,6 +5,7 @@ import (
 	"os"
 	"os/exec"
 	"path/filepath"
+	"strings"
 	"sync/atomic"
 	"syscall"
 	"time"
@@ -191,4 +192,50 @@ func newCmd(bin string, args []string, env []string, log *os.File) *exec.Cmd {
 	cmd.Env = append(os.Environ(), env...)
 	cmd.SysProcAttr = &syscall.SysProcAttr{Setpgid: true, Pdeathsig: syscall.SIGKILL}
 	return cmd
+}
+
+// racePass repeats the property's quick case list in a child built with the race
+// detector (which also switches on checkptr for the unsafe zero-copy bitmap views
+// over the bbolt mmap). Thorough tier only. Violations found by the child are
+// passed on; race reports through updog code are violations of their own.
+func racePass(r *vf.Run) {
+	if !r.Thorough() || r.Replay() {
+		return
+	}
+	if !haveBin("vcheck.race") {
+		r.Inconclusive("race-detector build of the harness not available for the race/checkptr pass")
+		return
+	}
+	sub := filepath.Join(r.Scratch, "race-pass")
+	_ = os.MkdirAll(sub, 0o755)
+	logp := filepath.Join(r.Scratch, "race-pass.log")
+	res := runChild(r, binPath("vcheck.race"), []string{"exec", r.Prop, "quick"}, childOpts{
+		Env:     []string{"VERIF_NO_EVIDENCE=1", "VERIF_SCRATCH_DIR=" + sub, "VERIF_PROGRESS=", "VERIF_RACE_PASS=1"},
+		Timeout: 90 * time.Minute, RaceLog: logp,
+	})
+	r.Count("race_checkptr_pass_runs", 1)
+	if res.TimedOut {
+		r.Inconclusive("race/checkptr pass exceeded its watchdog")
+		return
+	}
+	for _, line := range strings.Split(res.Stdout, "\n") {
+		if strings.HasPrefix(line, "VIOLATION ") {
+			fmt.Println(line)
+			r.Count("violations_in_race_checkptr_pass", 1)
+		}
+		if strings.HasPrefix(line, "RESULT ") {
+			r.Extra("race_checkptr_pass_result", line)
+		}
+	}
+	checkRaceLog(r, "race-pass", logp)
+	switch {
+	case res.Code == 1:
+		r.Violation("race-pass", "violation-under-race-detector", map[string]any{"stdout": tail(res.Stdout, 4000), "stderr": tail(res.Stderr, 4000)})
+	case res.Code != 0 && res.Code != 2:
+		if strings.Contains(res.Stderr, "checkptr") || strings.Contains(res.Stderr, "fatal error:") || strings.Contains(res.Stderr, "panic:") {
+			r.Violation("race-pass", "crash-under-race-detector", map[string]any{"stderr": tail(res.Stderr, 12000)})
+		} else {
+			r.Inconclusive(fmt.Sprintf("race/checkptr pass ended with exit code %d: %s", res.Code, tail(res.Stderr, 300)))
+		}
+	}
 }
